@@ -108,7 +108,15 @@ def gen_rotate(rng, o, N, forms=FORMS, max_vec=4, wild=True, alias=False):
         op["anchor"] = gen_anchor(rng, 1, alias)
         return op
     if form == "angax":
-        op["angle"] = rng.randint(-24, 24) * 7.5 if scalar else [rng.randint(-24, 24) * 7.5 for _ in range(n)]
+        if rng.random() < 0.15:
+            # several full turns, in either unit (wave 10, C09_m: whole "360-unit" turns dropped before the conversion)
+            def big():
+                return rng.choice([-1, 1]) * rng.randint(721, 6000) * 0.5
+
+            op["angle"] = big() if scalar else [big() if rng.random() < 0.6 else rng.randint(-24, 24) * 7.5
+                                                for _ in range(n)]
+        else:
+            op["angle"] = rng.randint(-24, 24) * 7.5 if scalar else [rng.randint(-24, 24) * 7.5 for _ in range(n)]
         op["axis"] = rng.choice(AXES) if rng.random() < 0.5 else gen.nz_vec3(rng)
         op["degrees"] = rng.random() < 0.7
     elif form == "euler":
